@@ -1292,6 +1292,11 @@ class Bpsec(AbstractApplication):
         The container must be reloaded beforehand.
         '''
 
+        # A fragment is not a security source's unit of protection: the
+        # original bundle was processed before it was fragmented
+        if ctr.bundle.primary.bundle_flags & PrimaryBlock.Flag.IS_FRAGMENT:
+            return
+
         # No configuration here yet
         for ctx in self._contexts.values():
             ctx.apply_bib(ctr)
@@ -1300,6 +1305,9 @@ class Bpsec(AbstractApplication):
         ''' If configured add a BCB.
         The container must be reloaded beforehand.
         '''
+
+        if ctr.bundle.primary.bundle_flags & PrimaryBlock.Flag.IS_FRAGMENT:
+            return
 
         # No configuration here yet
         for ctx in self._contexts.values():
